@@ -345,12 +345,14 @@ func checkC07(c *Ctx, r *Report) {
 }
 
 // checkAliasWrites implements C07.a.
-func checkAliasWrites(c *Ctx, r *Report) {
+func checkAliasWrites(c *Ctx, r *Report) { checkAliasWritesAs(c, r, "C07.a") }
+
+func checkAliasWritesAs(c *Ctx, r *Report, aliasClause string) {
 	w := c.W
 	sref := w.extType(pkgKin, "SchemaRef")
 	schema := w.extType(pkgKin, "Schema")
 	if sref == nil || schema == nil {
-		r.undecided("C07.a", "alias-write", "swagen30", "", "kin-openapi types not found")
+		r.undecided(aliasClause, "alias-write", "swagen30", "", "kin-openapi types not found")
 		return
 	}
 	// reviewed exceptions: writes whose SchemaRef is loaded from memory but is provably this
@@ -439,9 +441,9 @@ func checkAliasWrites(c *Ctx, r *Report) {
 		}
 	}
 	if nWrites < 20 {
-		r.undecided("C07.a", "alias-write", "swagen30:coverage", "", fmt.Sprintf("only %d writes through SchemaRef.Value found in swagen30 (floor 20): the rule lost coverage", nWrites))
+		r.undecided(aliasClause, "alias-write", "swagen30:coverage", "", fmt.Sprintf("only %d writes through SchemaRef.Value found in swagen30 (floor 20): the rule lost coverage", nWrites))
 	}
-	o := r.add("C07.a", "alias-write", "swagen30:writes-through-SchemaRef.Value", "3.0: every write through SchemaRef.Value was inspected; those through a possibly shared reference are listed as separate obligations", []string{"generator/swagen/swagen30"}, sites, "")
+	o := r.add(aliasClause, "alias-write", "swagen30:writes-through-SchemaRef.Value", "3.0: every write through SchemaRef.Value was inspected; those through a possibly shared reference are listed as separate obligations", []string{"generator/swagen/swagen30"}, sites, "")
 	o.NonTrivial = true
 	seenBad := map[string]bool{}
 	for _, bd := range bads {
@@ -456,7 +458,7 @@ func checkAliasWrites(c *Ctx, r *Report) {
 			viol = ""
 			desc += " (reviewed: " + reason + ")"
 		}
-		r.add("C07.a", "alias-write", "swagen30:"+k, desc, []string{bd.fn}, []string{bd.pos}, viol)
+		r.add(aliasClause, "alias-write", "swagen30:"+k, desc, []string{bd.fn}, []string{bd.pos}, viol)
 	}
 	r.count("schema_writes_checked", nWrites)
 }
